@@ -391,21 +391,3 @@ Section Extended.
   Qed.
 End Extended.
 
-(* ------------------------------------------------------------------ Montgomery<int32_t>, relative to the REDC specification
-   (C07 proves REDC for its model of the same functions; here it is a hypothesis, so the statement is labelled partial) *)
-Section Montgomery.
-  Variable p : Z.
-  Hypothesis Hp : 3 <= p <= 40503.
-  Definition redc_spec : Prop :=
-    forall c, 0 <= c < p * p -> 0 <= mg_redc p c < p /\ (mg_redc p c * 65536) mod p = c mod p.
-  Hypothesis Hredc : redc_spec.
-  (* init(uint64_t) / init(Integer >= 0): the stored element e satisfies redc(e) = x mod p, i.e. convert(init(x)) = x mod p *)
-  Lemma mg_B2p_bound : 0 <= mg_B2p p < p.
-  Proof. unfold mg_B2p. apply Z.mod_pos_bound; lia. Qed.
-  Theorem mg_to_canonical r : 0 <= r < p -> 0 <= mg_to p r < p.
-  Proof.
-    intros Hr. unfold mg_to. pose proof mg_B2p_bound.
-    assert (0 <= r * mg_B2p p < p * p) by nia.
-    rewrite wrapu_id by (try change (2 ^ 32) with 4294967296; nia). apply Hredc; auto.
-  Qed.
-End Montgomery.
